@@ -416,6 +416,41 @@ def gen_prefix_config(rng, root, words):
 
 
 # (no two paths may be equal up to case: the go tool refuses such a build with "case-insensitive import collision")
+SVC_FAMILY = ["svc", "svc/gen", "svc/other", "svc/api", "svc/api/gen", "svc/api/gen/deep", "svc/api/v1", "svc/api/v1/x", "svc/api/w"]
+
+
+def svc_variants():
+    L = lambda t, eos=True: {"bos": False, "body": ("lit", t), "eos": eos}
+    # (root list, [(package, list or None, recursive)])
+    return [
+        (None, [("svc", [L("/gen")], True), ("svc/api", [L("/v1")], True)]),                 # svc/api/gen through svc/api
+        (None, [("svc", [L("/api")], True), ("svc/api", [L("/v1")], True)]),                 # the inner package matches the outer list
+        (None, [("svc", [L("/gen"), L("/v1")], True), ("svc/api", [L("/zzz")], True)]),       # inner list excludes nothing
+        (None, [("svc", [L("/zzz")], True), ("svc/api", [L("/gen"), L("/w")], True)]),       # svc/api/gen through svc only
+        (None, [("svc", [L("/gen")], True), ("svc/api", [L("/v1")], True), ("svc/api/gen", [L("/nothing")], True)]),   # three levels
+        (None, [("svc", [L("/gen"), L("/deep")], True), ("svc/api", [L("/gen")], True), ("svc/api/gen", [L("/v1")], True)]),
+        ([L("/gen")], [("svc", None, True), ("svc/api", [L("/v1")], True)]),                 # outer list inherited from the top level
+        ([L("/v1")], [("svc", [L("/gen")], True), ("svc/api", None, True)]),                 # inner list inherited from the top level
+        (None, [("svc", [L("/gen")], True), ("svc/api", [L("/v1")], False), ("svc/api/v1", [L("/zzz")], True)]),       # middle one not recursive
+        (None, [("svc", [L("gen", False)], True), ("svc/api", [L("/v1/", False)], True)]),   # unanchored: gen/deep too; v1/x only
+    ]
+
+
+def gen_svc_config(rng, root, variant=None):
+    rootlist, pk = svc_variants()[variant] if variant is not None else rng.choice(svc_variants())
+    keep = {"t": "ok", "p": {"bos": True, "body": ("lit", "Keep"), "eos": False}}
+    pkgs = {}
+    for j, (rel, l, rec) in enumerate(pk):
+        c = empty_cfg(); c["rec"] = rec; c["mark"] = "_" + re.sub(r"[^a-z0-9]", "", rel[3:]).capitalize() if rel != "svc" else "_Svc"
+        if j == 0 or rng.random() < 0.5: c["all"] = True
+        else: c["all"] = False; c["inc"] = keep
+        c["exsub"] = l
+        pkgs[path_of(rel)] = {"null": False, "cfg": c, "ifaces": {}}
+    root["exsub"] = rootlist
+    root["rec"] = None
+    return pkgs
+
+
 SIBLING_FAMILY = ["sv", "sv/api", "sv/api/internal", "sv/api/internal/deep", "sv/api/internal/deep/er", "sv/api/x",
                   "sv/api-v2", "sv/api-v2/sub", "sv/api.v1", "sv/api+x", "sv/api_v2", "sv/api_v2/sub", "sv/api0"]
 SIBLINGS = ["sv/api-v2", "sv/api.v1", "sv/api+x", "sv/api_v2", "sv/api0"]
@@ -547,6 +582,11 @@ def gen_tree(rng):
             {"name": "Keep" + tag, "form": "iface", "file": "a.go"}, {"name": "Drop" + tag, "form": "iface", "file": "a.go"}]
             + ([{"name": "Opt" + tag, "form": "struct", "file": "b.go"}] if rng.random() < 0.3 else [])})
         add_generated(rng, nodes[-1]["decls"], p=0.3)
+    # nested recursive packages with different exclusion lists
+    for rel in SVC_FAMILY:
+        tag = re.sub(r"[^A-Za-z0-9]", "", rel[3:]).capitalize() or "Top"
+        nodes.append({"rel": rel, "class": "go", "decls": [
+            {"name": "Keep" + tag, "form": "iface", "file": "a.go"}, {"name": "Drop" + tag, "form": "iface", "file": "a.go"}]})
     # siblings whose name is the package's name followed by a byte smaller ('+' '-' '.') or larger ('0' '_') than '/':
     # in sorted order they stand between the package and its sub-packages, or after them
     for rel in SIBLING_FAMILY:
@@ -666,6 +706,10 @@ def gen_config(rng, nodes, shape=None):
     elif shape in ("nested", "explicit_child"): chosen = chain[:1] + rng.sample(chain[1:], min(1, len(chain) - 1))
     elif shape == "triple": chosen = chain[:1] + rng.sample(chain[1:], min(2, len(chain) - 1))
     elif shape == "rootrec": chosen = rng.sample([n["rel"] for n in gos], min(len(gos), 2)); root["rec"] = True
+    elif shape == "nested_exsub":
+        pkgs = gen_svc_config(rng, root)
+        order = list(pkgs); rng.shuffle(order)
+        return {"root": root, "tags": tags, "pkgs": pkgs, "order": order, "shape": shape}
     elif shape == "sorted_siblings":
         pkgs = gen_sibling_config(rng, root, words)
         order = list(pkgs); rng.shuffle(order)
@@ -1084,14 +1128,14 @@ def gen_cases(ctx):
     cases = []
     tab = table_cases(rng)
     if not ctx.thorough():
-        tab = rng.sample(tab, 84)
+        tab = rng.sample(tab, 72)
     cases += tab
     ntrees = 130 if ctx.thorough() else 10
-    shapes = ["flat", "single", "nested", "prefix_nested", "exsub_flags", "sorted_siblings", "twins_explicit", "twins_recursive", "triple",
+    shapes = ["flat", "single", "nested", "nested_exsub", "prefix_nested", "exsub_flags", "sorted_siblings", "twins_explicit", "twins_recursive", "triple",
               "explicit_child", "rootrec", "prefix_nested", "exsub_flags", "sorted_siblings", "nested", "random"]
     for t in range(ntrees):
         nodes = gen_tree(rng)
-        for k in range(16 if ctx.thorough() else 11):
+        for k in range(17 if ctx.thorough() else 12):
             cfg = gen_config(rng, nodes, shape=shapes[k % len(shapes)])
             cases.append({"nodes": nodes, "config": cfg, "label": "tree%d:%s" % (t, cfg["shape"])})
     return cases
@@ -1114,7 +1158,7 @@ def check(ctx, only=None):
 
     def reps(c):     # order-dependent behaviour shows only sometimes: run recursion shapes more than once
         nrec = sum(1 for p in c["config"]["pkgs"].values() if p["cfg"]["rec"]) + (2 if c["config"]["root"]["rec"] else 0)
-        if only is None and c["config"]["shape"] == "sorted_siblings" and not c.get("label", "").startswith("corpus:"):
+        if only is None and c["config"]["shape"] in ("sorted_siblings", "nested_exsub") and not c.get("label", "").startswith("corpus:"):
             return 1          # many recursive packages = many `go list` calls per run; the corpus variants are repeated
         return (5 if only is not None else 3) if nrec >= 2 else 1
     jobs = [(i, r) for i, c in enumerate(cases) for r in range(reps(c))]
